@@ -37,65 +37,70 @@ def absentKey (kvs : List (String × Val)) : MId → Bool
   | .key _ k => (Val.lookup k kvs).isNone
   | .wild _ => false
 
+mutual
 /-- every local failure of the chain on `cur` -/
 def fails (env : Env) : List N → Val → Val → List RtErr
   | [], _, _ => []
-  | .root _ :: rest, root, _ => fails env rest root root
-  | .cur _ :: rest, root, cur => fails env rest root cur
-  | .child i k :: rest, root, cur =>
+  | n :: rest, root, cur => failsN env n (fun r v => fails env rest r v) root cur
+/-- one node; `K root v`: the failures of the rest of the chain on `v` -/
+def failsN (env : Env) : N → (Val → Val → List RtErr) → Val → Val → List RtErr
+  | .root _, K, root, _ => K root root
+  | .cur _, K, root, cur => K root cur
+  | .child i k, K, root, cur =>
     match cur with
     | .obj kvs => (match Val.lookup k kvs with
-      | some v => fails env rest root v
+      | some v => K root v
       | none => [.member i])
     | _ => [typeErr i "object" cur]
-  | .wild i :: rest, root, cur =>
+  | .wild i, K, root, cur =>
     match cur with
-    | .obj kvs => grp i (sortKV kvs) (fun kv => fails env rest root kv.2)
-    | .arr xs => grp i xs (fun x => fails env rest root x)
+    | .obj kvs => grp i (sortKV kvs) (fun kv => K root kv.2)
+    | .arr xs => grp i xs (fun x => K root x)
     | _ => [typeErr i "object/array" cur]
-  | .multi i ids twin :: rest, root, cur =>
+  | .multi i ids twin, K, root, cur =>
     match twin, cur with
-    | some ti, .arr xs => grp ti (ids.flatMap (fun _ => xs)) (fun x => fails env rest root x)
+    | some ti, .arr xs => grp ti (ids.flatMap (fun _ => xs)) (fun x => K root x)
     | _, .obj kvs =>
       if ids.all (absentKey kvs) then [.member i]
       else ids.flatMap (fun id =>
         match id with
         | .key _ k => (match Val.lookup k kvs with
-          | some v => fails env rest root v
+          | some v => K root v
           | none => [])
-        | .wild ii => grp ii (sortKV kvs) (fun kv => fails env rest root kv.2))
+        | .wild ii => grp ii (sortKV kvs) (fun kv => K root kv.2))
     | _, _ => [typeErr i "object" cur]
-  | .desc i mr lr :: rest, root, cur =>
+  | .desc i mr lr, K, root, cur =>
     if cur.isContainer then
-      grp i ((Val.containers cur).filter (fun c => if isObj c then mr else lr)) (fun c => fails env rest root c)
+      grp i ((Val.containers cur).filter (fun c => if isObj c then mr else lr)) (fun c => K root c)
     else [typeErr i "object/array" cur]
-  | .union i subs :: rest, root, cur =>
+  | .union i subs, K, root, cur =>
     match cur with
     | .arr xs => grp i (subs.flatMap (fun s => subIndexes s xs.length)) (fun (ix : Int) =>
         match (if ix < 0 then none else xs[ix.toNat]?) with
-        | some v => fails env rest root v
+        | some v => K root v
         | none => [])
     | _ => [typeErr i "array" cur]
-  | .filter i q :: rest, root, cur =>
+  | .filter i q, K, root, cur =>
     if cur.isContainer then
-      grp i (keepBy (entries cur) (semQ env q root (entries cur))) (fun v => fails env rest root v)
+      grp i (keepBy (entries cur) (semQ env q root (entries cur))) (fun v => K root v)
     else [typeErr i "object/array" cur]
-  | .ffn i name :: rest, root, cur =>
+  | .ffn i name, K, root, cur =>
     match env.ffn name with
     | some f => (match f cur with
-      | some r => fails env rest root r
+      | some r => K root r
       | none => [.func i])
     | none => []
-  | .afn i name param :: rest, root, cur =>
+  | .afn i name param, K, root, cur =>
     fails env param root cur ++
     (match den env param root cur with
      | [] => []
      | r0 :: rs =>
        match env.afn name with
        | some f => (match f (aggArgs (chainVg param) r0 (r0 :: rs)) with
-         | some r => fails env rest root r
+         | some r => K root r
          | none => [.func i])
        | none => [])
+end
 
 /-! ### the Infos a chain can put into an error, in path order -/
 
@@ -108,33 +113,35 @@ def errInfos : N → List Info
   | .multi i ids twin => i :: twin.toList ++ ids.map midInfo
   | n => [n.info]
 
+mutual
 /-- all of them, the parameter chain of an aggregate before the aggregate -/
 def infos : List N → List Info
   | [] => []
-  | .afn i _ param :: rest => infos param ++ i :: infos rest
-  | .root i :: rest => i :: infos rest
-  | .cur i :: rest => i :: infos rest
-  | .child i _ :: rest => i :: infos rest
-  | .wild i :: rest => i :: infos rest
-  | .multi i ids twin :: rest => (i :: twin.toList ++ ids.map midInfo) ++ infos rest
-  | .desc i _ _ :: rest => i :: infos rest
-  | .union i _ :: rest => i :: infos rest
-  | .filter i _ :: rest => i :: infos rest
-  | .ffn i _ :: rest => i :: infos rest
+  | n :: rest => infosN n (infos rest)
+def infosN : N → List Info → List Info
+  | .afn i _ param, tl => infos param ++ i :: tl
+  | .multi i ids twin, tl => (i :: twin.toList ++ ids.map midInfo) ++ tl
+  | .root i, tl | .cur i, tl | .child i _, tl | .wild i, tl | .desc i _ _, tl | .union i _, tl
+  | .filter i _, tl | .ffn i _, tl => i :: tl
+end
 
+mutual
 /-- the chain as written: the parameter chain of an aggregate, the aggregate, the rest -/
 def flat : List N → List N
   | [] => []
-  | .afn i name param :: rest => flat param ++ .afn i name param :: flat rest
-  | .root i :: rest => .root i :: flat rest
-  | .cur i :: rest => .cur i :: flat rest
-  | .child i k :: rest => .child i k :: flat rest
-  | .wild i :: rest => .wild i :: flat rest
-  | .multi i ids twin :: rest => .multi i ids twin :: flat rest
-  | .desc i a b :: rest => .desc i a b :: flat rest
-  | .union i s :: rest => .union i s :: flat rest
-  | .filter i q :: rest => .filter i q :: flat rest
-  | .ffn i name :: rest => .ffn i name :: flat rest
+  | n :: rest => flatN n (flat rest)
+def flatN : N → List N → List N
+  | .afn i name param, tl => flat param ++ .afn i name param :: tl
+  | .root i, tl => .root i :: tl
+  | .cur i, tl => .cur i :: tl
+  | .child i k, tl => .child i k :: tl
+  | .wild i, tl => .wild i :: tl
+  | .multi i ids twin, tl => .multi i ids twin :: tl
+  | .desc i a b, tl => .desc i a b :: tl
+  | .union i s, tl => .union i s :: tl
+  | .filter i q, tl => .filter i q :: tl
+  | .ffn i name, tl => .ffn i name :: tl
+end
 
 def noAfnN : N → Bool
   | .afn _ _ _ => false
@@ -145,11 +152,17 @@ def noAfn : List N → Bool
   | [] => true
   | n :: rest => noAfnN n && noAfn rest
 
+mutual
 /-- single-valued all the way down: the parameter chains of aggregates too -/
 def singleDeep : List N → Bool
   | [] => true
-  | .afn _ _ param :: rest => singleDeep param && singleDeep rest
-  | n :: rest => singleNode n && singleDeep rest
+  | n :: rest => singleDeepN n && singleDeep rest
+def singleDeepN : N → Bool
+  | .afn _ _ param => singleDeep param
+  | .root _ | .cur _ | .child _ _ | .ffn _ _ => true
+  | .union _ subs => singleNode (.union default subs)
+  | .wild _ | .multi _ _ _ | .desc _ _ _ | .filter _ _ => false
+end
 
 end Fails
 end JPV
